@@ -119,7 +119,8 @@ def hostile_session(ctx, sid):
             kinds[kind] = kinds.get(kind, 0) + 1
         elif r < 0.30:
             verb = rng.choice(sorted(RESTORE))
-            big = rng.choice([2 ** 31, 2 ** 32 + 5, -2 ** 33, 10 ** 20, -10 ** 30, 2 ** 63, 2 ** 64])
+            # (beyond 64 bit, beyond what a float can hold - 309 digits and more still fit the receive buffer)
+            big = rng.choice([2 ** 31, 2 ** 32 + 5, -2 ** 33, 10 ** 20, -10 ** 30, 2 ** 63, 2 ** 64, 10 ** 310 + 7, -(10 ** 400), 7 * 10 ** 900])
             txt = "CMD %s %d" % (verb, big)
             if verb in ("FAKE_TOA", "FAKE_RSSI", "FAKE_CI") and rng.random() < 0.5:
                 txt += " %d" % rng.choice([0, 5])
